@@ -6,9 +6,12 @@ strict mode raises type-not-found at the first element of unknown type; lenient 
 exactly as (lenient or strict) mode behaves on the document without the elements of unknown type, except
 that it remembers their ids (used later to skip view members); when every type is known the two modes
 coincide.  Leniency of view handles is `handles_history` of C08.
-The later passes are compared per run by the correspondence check (partial).
+The third pass skips exactly the remembered ids (`buildCas_skip_eq_dropped`), the flag itself is irrelevant for
+structures of registered types (`buildCas_flag_irrelevant`), and end to end a lenient load of a document is the
+strict load of the document without the unknown-typed elements and without their ids in the member lists
+(`loadXmi_lenient_eq_strict_filtered`).
 -/
-import CassisModel.Proofs.XmiLoad
+import CassisModel.Proofs.XmiLoad2
 
 namespace Cassis.Xmi
 open Cassis.TS
@@ -47,5 +50,27 @@ theorem pass1_lenient_ids (K : Consts) (ts : TypeSystem) (tsIdx : Nat) (doc : XD
     r.lenientIds = s.lenientIds ++
       (doc.filter (fun e => !(knownElem ts e))).filterMap (fun e => (attr e ID).bind Lex.parseInt) :=
   pass1_lenient_ids_aux K ts tsIdx doc s r h
+
+/-! ### the later passes and the end-to-end statement -/
+
+/-- third pass: skipping the remembered ids = their absence from the member lists -/
+theorem buildCas_skip_eq_dropped (K : Consts) (ts : TypeSystem) (ci : Nat) (lenient : Bool) (p : Pass1) (hp : Heap) :
+    buildCas K ts ci lenient p hp = buildCas K ts ci lenient (dropMembers p.lenientIds p) hp :=
+  buildCas_skip_eq_dropped_aux K ts ci lenient p hp
+
+/-- the leniency flag only matters for structures whose type the type system lacks -/
+theorem buildCas_flag_irrelevant (K : Consts) (ts : TypeSystem) (ci : Nat) (p : Pass1) (hp : Heap)
+    (hk : ∀ q ∈ p.fss, ∀ o : Obj, hp[q.2]? = some o → containsType ts o.ty = true) :
+    buildCas K ts ci true p hp = buildCas K ts ci false p hp :=
+  buildCas_flag_irrelevant_aux K ts ci p hp hk
+
+/-- **lenient loading = strict loading of the document without the unknown-typed elements and without their
+    ids in the view member lists** (what remains may not refer to a dropped structure, or both sides fail) -/
+theorem loadXmi_lenient_eq_strict_filtered (K : Consts) (ts : TypeSystem) (tsIdx ci : Nat) (hp : Heap) (doc : XDoc)
+    (ld : Loaded) (h : loadXmi K ts tsIdx ci true hp doc = .ok ld) :
+    ∃ r : Pass1, pass1 K ts tsIdx true doc { heap := hp } = .ok r ∧
+      ∃ ld' : Loaded, loadXmi K ts tsIdx ci false hp ((doc.filter (knownElem ts)).map (dropMembersElem r.lenientIds)) = .ok ld' ∧
+        ld'.cas = ld.cas ∧ ld'.heap = ld.heap :=
+  loadXmi_lenient_eq_strict_filtered_aux K ts tsIdx ci hp doc ld h
 
 end Cassis.Xmi
